@@ -1,6 +1,6 @@
 (* Dispatcher: one case = list of integers, first the kind. *)
 From Coq Require Import ZArith List.
-From RRTK Require Import Num.Num Num.B32 Model.Values Model.Prog Model.Wire Model.WireStreams Model.WireSettable Model.WireMP Model.WireWorld.
+From RRTK Require Import Num.Num Num.B32 Model.Values Model.Prog Model.Wire Model.WireStreams Model.WireSettable Model.WireMP Model.WireWorld Model.WireRef.
 Import ListNotations.
 Local Open Scope Z_scope.
 From Coq Require Import Bool.
@@ -13,6 +13,8 @@ Definition run_case (l : list Z) : list Z :=
   | 5 :: r => run_sett_case r
   | 6 :: r => run_mp_case r
   | 7 :: r => run_world_case r
+  | 9 :: r => run_ref_case r
+  | [10; v; t; k] => [Z.max 0 t * Z.max 0 k]     (* threads x increments: no update is lost *)
   | [8; n; i] => if (0 <=? i) && (i <? n) then [0] else [W_PANIC]   (* Axle::get_terminal: index out of range panics *)
   | _ => [W_BAD]
   end.
